@@ -280,6 +280,17 @@ func (s *Scheme) runDKG(ctx context.Context, membership *membership, dkgProtocol
 	ctx, cancel := context.WithCancel(ctx)
 	defer cancel()
 
+	// The handler of the membership synchronization is released when runDKG returns, even if the
+	// protocol instance is slow to abort and the callback below is therefore still running.
+	var membersSyncTopic string
+	defer func() {
+		s.lock.Lock()
+		if membersSyncTopic != "" {
+			delete(s.syncsInProgress, membersSyncTopic)
+		}
+		s.lock.Unlock()
+	}()
+
 	callback := func(members []uint16) {
 		universalIds := UIntsToUniversalIDs(members)
 		parties, err := membership.partyIDsByUniversalIDs(universalIds)
@@ -342,6 +353,7 @@ func (s *Scheme) runDKG(ctx context.Context, membership *membership, dkgProtocol
 
 		s.lock.Lock()
 		s.syncsInProgress[string(membersSyncTopicHash)] = sync.HandleMessage
+		membersSyncTopic = string(membersSyncTopicHash)
 		s.lock.Unlock()
 
 		defer func() {
